@@ -157,6 +157,11 @@ func (m *Mod) renderPkg(i int, out map[string]string) {
 	if len(p.Imports) > 0 {
 		w("// Via returns a value of a type of a dependency.\nfunc Via() *%s.T { return %s.New() }\n\n", pkgName(p.Imports[0]), pkgName(p.Imports[0]))
 	}
+	if m.hasV2(i) {
+		// a value whose type lives two import edges away, without importing
+		// that package: importers of this package reach facts three edges away
+		w("// V2 holds a value of a type two import edges away.\nvar V2 = %s.Via()\n\n", pkgName(p.Imports[0]))
+	}
 	// Use: exercises facts of dependencies
 	w("// Use uses the dependencies.\nfunc Use() int {\n\tn := 0\n")
 	for _, d := range p.Imports {
@@ -172,6 +177,10 @@ func (m *Mod) renderPkg(i int, out map[string]string) {
 		if len(m.Pkgs[d].Imports) > 0 {
 			// a method of a package two import edges away
 			w("\tn += %s.Via().M()\n", dn)
+		}
+		if m.hasV2(d) {
+			// ... and three import edges away
+			w("\tn += %s.V2.M()\n", dn)
 		}
 	}
 	w("\treturn n\n}\n\n")
@@ -263,6 +272,13 @@ func (m *Mod) renderPkg(i int, out map[string]string) {
 	}
 }
 
+// hasV2: package i exports V2, a value of a type of the first import of its
+// first import.
+func (m *Mod) hasV2(i int) bool {
+	p := &m.Pkgs[i]
+	return len(p.Imports) > 0 && len(m.Pkgs[p.Imports[0]].Imports) > 0
+}
+
 // renderPlain renders a package without facts (see Pkg.Plain). It offers
 // what importers use (T, New, M, F, Pure, Mk, Use, Via) and keeps the
 // deprecation switches, the local problems and the configuration file.
@@ -309,6 +325,9 @@ func (m *Mod) renderPlain(i int, out map[string]string) {
 	if len(p.Imports) > 0 {
 		w("// Via returns a value of a type of a dependency.\nfunc Via() *%s.T { sink++; return %s.New() }\n\n", pkgName(p.Imports[0]), pkgName(p.Imports[0]))
 	}
+	if m.hasV2(i) {
+		w("// V2 holds a value of a type two import edges away.\nvar V2 = %s.Via()\n\n", pkgName(p.Imports[0]))
+	}
 	w("// Use uses the dependencies.\nfunc Use() int {\n\tsink++\n\tn := sink\n")
 	for _, d := range p.Imports {
 		dn := pkgName(d)
@@ -322,6 +341,9 @@ func (m *Mod) renderPlain(i int, out map[string]string) {
 		}
 		if len(m.Pkgs[d].Imports) > 0 {
 			w("\tn += %s.Via().M()\n", dn)
+		}
+		if m.hasV2(d) {
+			w("\tn += %s.V2.M()\n", dn)
 		}
 	}
 	w("\treturn n\n}\n\n")
